@@ -1,4 +1,10 @@
-"""C11 — combined over the wire-format family groups (parts built separately: c11_<group>)."""
+"""C11 — combined over family parts (built separately: c11_theta, c11_hll, c11_cpc, c11_quant, c11_count, c11_misc)."""
 from ..combine import combined_spec
 
-SPEC = combined_spec("C11", ["c11_theta", "c11_hll", "c11_cpc", "c11_quant", "c11_count", "c11_misc"], "C11")
+SPEC = combined_spec("C11", ['c11_theta', 'c11_hll', 'c11_cpc', 'c11_quant', 'c11_count', 'c11_misc'], "C11")
+CLAIM_TEXT = ('Truncated/corrupted images: per family kernel-checked prefix safety of the specification readers (built from prefix-safe combinators; every strict prefix of every well-formed image is rejected, or — only for reserved padding — yields the same image) and `decode_bounded` (counts accepted are bounded by the input length); on the real code every prefix length 0..size-1 and every structural/preamble byte x a fixed replacement set is run on the bytes, stream (and wrap) paths under ASan/UBSan/LSan with allocation cap, balance check after throw and a CPU watchdog. '
+              + "Parts: " + " ".join(SPEC.claim_texts))
+CLAIM = dict(text=CLAIM_TEXT,
+             note='Memory safety of the C++ is observed (sanitizers) per sampled image, prefix/corruption enumeration per image is exhaustive; the theorems are about the specification readers.',
+             technique='Lean 4 prefix-safety proofs of reader combinators + exhaustive prefix/corruption sweeps of the real readers under sanitizers',
+             design='DESIGN.md §3 C11')
